@@ -33,7 +33,12 @@ NS = {"p": p, "np": np, "immutabledict": immutabledict, "Fraction": Fraction, "f
 
 def build(recipe):
     if recipe["kind"] == "compiled":
-        return pymbolic.compile(eval(recipe["src"], NS), recipe["vars"])
+        v = recipe["vars"]
+        kind = recipe.get("varkind", "list")
+        v = {"list": lambda: list(v), "tuple": lambda: tuple(v), "dictkeys": lambda: dict.fromkeys(v).keys(),
+             "generator": lambda: (n for n in v), "iter": lambda: iter(v), "set": lambda: set(v),
+             "frozenset": lambda: frozenset(v)}[kind]()
+        return pymbolic.compile(eval(recipe["src"], NS), v)
     return eval(recipe["src"], NS)
 
 
@@ -124,7 +129,8 @@ def consume(recipes, producer_log, out):
                     n = len(r["allvars"])
                     a = refsem.outcome(lambda: got(*ARGS[:n]))
                     b = refsem.outcome(lambda: mine(*ARGS[:n]))
-                    if not refsem.same_outcome(a, b):
+                    if not refsem.same_outcome(a, b) and r.get("varkind", "list") not in ("set", "frozenset"):
+                        # (listed as a set: the local compile may order the names differently)
                         ev["problems"].append(f"compiled: transferred={a!r} local={b!r}")
                     if "outcome" in pe and repr(a) != pe["outcome"]:
                         ev["problems"].append(f"compiled: transferred callable returns {a!r} here, "
